@@ -92,6 +92,11 @@ def if_tests(fn: ast.AST) -> list[str]:
     return sorted({nnf_text(n.test) for n in ast.walk(fn) if isinstance(n, ast.If)})
 
 
+def if_orelse_tests(fn: ast.AST) -> list[str]:
+    """canonical texts of the tests of if statements that have an else / elif part"""
+    return sorted({nnf_text(n.test) for n in ast.walk(fn) if isinstance(n, ast.If) and n.orelse})
+
+
 def if_tests_raw(fn: ast.AST) -> dict[str, str]:
     """canonical text -> the test as written (used to put a test back exactly as the reference wrote it)"""
     out = {}
@@ -293,7 +298,8 @@ class _Guards:
                 self._block(s.body, tail_kind)
                 self._block(s.orelse, tail_kind)
             elif isinstance(s, (ast.With, ast.AsyncWith)):
-                self._block(s.body, None)
+                # leaving the body of a `with` that is the last statement of the block is leaving the block (through __exit__ either way)
+                self._block(s.body, kind if s is block[-1] else None)
             elif isinstance(s, ast.Try):
                 self._block(s.body, None)
                 for h in s.handlers:
@@ -679,6 +685,7 @@ class Inliner:
         return out
 
     def run(self) -> int:
+        self._all_funcs = set(all_functions(self.tree))
         for _ in range(3):
             hs = self.helpers()
             if not hs:
@@ -723,6 +730,18 @@ class Inliner:
                 self._inline_in_function(s, cp, q + ".", hs)
                 self._visit_scope(s.body, cp, q + ".", hs, used)
 
+    def _bases(self):
+        if not hasattr(self, "_bases_cache"):
+            self._bases_cache = {}
+
+            def rec(body, prefix):
+                for st in body:
+                    if isinstance(st, ast.ClassDef):
+                        self._bases_cache[prefix + st.name] = [b.id for b in st.bases if isinstance(b, ast.Name)]
+                        rec(st.body, prefix + st.name + ".")
+            rec(self.tree.body, "")
+        return self._bases_cache
+
     def _classes(self):
         out = set()
 
@@ -742,6 +761,20 @@ class Inliner:
         for k in _callee_key(call, cls_prefix, scope_prefix):
             if k in hs:
                 return k
+        # a new helper defined in a base class of the caller's class (same module, looked up in base order)
+        f = call.func
+        if isinstance(f, ast.Attribute) and isinstance(f.value, ast.Name) and f.value.id == "self" and cls_prefix:
+            seen, work = set(), [cls_prefix[:-1]]
+            while work:
+                c = work.pop(0)
+                if c in seen:
+                    continue
+                seen.add(c)
+                if c != cls_prefix[:-1] and (c + "." + f.attr) in hs:
+                    return c + "." + f.attr
+                if c != cls_prefix[:-1] and (c + "." + f.attr) in self._all_funcs:
+                    return None  # a known (reference) method of that name comes first
+                work.extend(self._bases().get(c, []))
         return None
 
     def _bind(self, fn, is_static, call, caller_names):
@@ -941,15 +974,16 @@ class Inliner:
 
         def hoist(stmt):
             """stmt contains exactly one call to a straight-line helper (defs / assignments then `return expr`)"""
-            if not isinstance(stmt, (ast.Expr, ast.Assign, ast.Return)):
+            if not isinstance(stmt, (ast.Expr, ast.Assign, ast.Return, ast.If)):
                 return None
-            calls = [n for n in _walk_no_defs(stmt) if isinstance(n, ast.Call) and self._lookup(n, cls_prefix, scope_prefix, hs) is not None]
+            scope = stmt.test if isinstance(stmt, ast.If) else stmt  # an `if` runs its test once, right where the statement stands
+            calls = [n for n in _walk_no_defs(scope) if isinstance(n, ast.Call) and self._lookup(n, cls_prefix, scope_prefix, hs) is not None]
             if len(calls) != 1:
                 return None
             call = calls[0]
             # the helper's statements are moved in front of the statement: nothing of the statement with an effect may be
             # evaluated before the call (and the call's own arguments must be effect-free)
-            if not _used_before_any_effect(stmt, call):
+            if not (_used_before_any_effect(stmt, call) or _in_header_before_effect(stmt, call)):
                 return None
             fn, body, is_static = hs[self._lookup(call, cls_prefix, scope_prefix, hs)]
             if isinstance(fn, ast.AsyncFunctionDef) or any(isinstance(x, (ast.Yield, ast.YieldFrom)) for x in _walk_no_defs(fn)):
@@ -970,7 +1004,11 @@ class Inliner:
                     if n is call:
                         return ast.copy_location(ret, n)
                     return s2.generic_visit(n)
-            new_stmt = R().visit(stmt)
+            if isinstance(stmt, ast.If):
+                stmt.test = R().visit(stmt.test)
+                new_stmt = stmt
+            else:
+                new_stmt = R().visit(stmt)
             self.n += 1
             for x in ast.walk(ret):
                 if hasattr(x, "lineno") or isinstance(x, ast.expr):
@@ -985,7 +1023,7 @@ class Inliner:
                     i += 1
                     continue
                 rep = expand(s)
-                if rep is None and not isinstance(s, (ast.If, ast.For, ast.AsyncFor, ast.While, ast.Try, ast.With, ast.AsyncWith)):
+                if rep is None and not isinstance(s, (ast.For, ast.AsyncFor, ast.While, ast.Try, ast.With, ast.AsyncWith)):
                     rep = hoist(s)
                 if rep is not None:
                     block[i:i + 1] = rep
@@ -1062,9 +1100,14 @@ def _has_effect(stmt) -> bool:
                for n in ast.walk(stmt))
 
 
+# builtins that only read their arguments (user-defined __len__ / __iter__ / __eq__ ... are taken not to change unrelated state)
+_READ_ONLY_BUILTINS = ("len", "isinstance", "type", "id", "abs", "min", "max", "int", "float", "str", "bool", "tuple", "list", "dict", "set",
+                       "frozenset", "sorted", "range", "zip", "enumerate", "sum", "any", "all", "repr", "callable", "hasattr", "getattr")
+
+
 def _is_effect(n) -> bool:
     if isinstance(n, ast.Call):
-        return not (isinstance(n.func, ast.Name) and n.func.id in _STABLE_BUILTINS and not n.keywords)
+        return not (isinstance(n.func, ast.Name) and n.func.id in _STABLE_BUILTINS + _READ_ONLY_BUILTINS and not n.keywords)
     return isinstance(n, (ast.Await, ast.Yield, ast.YieldFrom, ast.NamedExpr, ast.Lambda, ast.ListComp, ast.SetComp, ast.DictComp, ast.GeneratorExp))
 
 
@@ -1418,6 +1461,44 @@ def loops_to_comprehensions(fn, comp_locals: dict) -> int:
     return n_done
 
 
+def any_tests_to_loops(fn, known_tests: set) -> int:
+    """`if any(c for t in it): <block that always leaves>` is the search loop `for t in it: if c: <block>` (the first hit
+    leaves; no hit falls through) - rewritten when the reference does not know the `any(...)` test."""
+    n_done = 0
+    for node in list(_walk_no_defs(fn)):
+        for fld in ("body", "orelse", "finalbody"):
+            block = getattr(node, fld, None)
+            if not (isinstance(block, list) and block and isinstance(block[0], ast.stmt)):
+                continue
+            for i, st in enumerate(block):
+                if not (isinstance(st, ast.If) and not st.orelse and _terminal(st.body) and isinstance(st.body[-1], (ast.Raise, ast.Return))):
+                    continue
+                t = st.test
+                if not (isinstance(t, ast.Call) and isinstance(t.func, ast.Name) and t.func.id == "any" and len(t.args) == 1 and not t.keywords
+                        and isinstance(t.args[0], ast.GeneratorExp) and len(t.args[0].generators) == 1 and not t.args[0].generators[0].is_async):
+                    continue
+                if nnf_text(t) in known_tests:
+                    continue
+                gen = t.args[0].generators[0]
+                if any(isinstance(x, (ast.Await, ast.Yield, ast.YieldFrom, ast.NamedExpr)) for x in ast.walk(t)):
+                    continue
+                loop_vars = {x.id for x in ast.walk(gen.target) if isinstance(x, ast.Name)}
+                if any(isinstance(x, ast.Name) and x.id in loop_vars for x in ast.walk(fn) if not any(x is y for y in ast.walk(t))):
+                    continue  # the names would leak into / clash with the rest of the function
+                cond = t.args[0].elt
+                for extra in reversed(gen.ifs):
+                    cond = ast.BoolOp(op=ast.And(), values=[extra, cond])
+                inner = ast.copy_location(ast.If(test=cond, body=st.body, orelse=[]), st)
+                block[i] = ast.copy_location(ast.For(target=gen.target, iter=gen.iter, body=[inner], orelse=[], type_comment=None), st)
+                for x in ast.walk(gen.target):
+                    if isinstance(x, ast.Name):
+                        x.ctx = ast.Store()
+                n_done += 1
+    if n_done:
+        ast.fix_missing_locations(fn)
+    return n_done
+
+
 def normalise_temporaries(tree: ast.Module, modname: str) -> int:
     """phase 1b (after a first renaming pass, so that merely renamed locals are not mistaken for new temporaries)"""
     from . import alpha
@@ -1429,6 +1510,7 @@ def normalise_temporaries(tree: ast.Module, modname: str) -> int:
         if key not in r.get("if_tests", {}):
             continue
         params = {a.arg for a in ast.walk(fn) if isinstance(a, ast.arg)}
+        n += any_tests_to_loops(fn, set(r.get("if_tests", {}).get(key, [])))
         n += loops_to_comprehensions(fn, {x[0]: x[2] for x in locs.get(key, []) if x[1] == "Assign" and x[2] in ("DictComp", "ListComp", "SetComp")})
         n += substitute_new_temporaries(fn, {x[0] for x in locs.get(key, [])} | params)
     return n
@@ -1445,6 +1527,7 @@ def normalise_guards(tree: ast.Module, modname: str) -> int:
         if known is None:
             continue
         ifelse = {nnf_text(ast.parse(t, mode="eval").body) for t in ref().get("shapes", {}).get(key, {}).get("if_else_tests", [])}
+        ifelse |= set(ref().get("if_orelse_tests", {}).get(key, []))  # also the heads of if / elif chains
         g = _Guards(set(known), ref().get("if_tests_raw", {}).get(key, {}), ifelse)
         g.run(fn)
         n += g.n
